@@ -114,4 +114,18 @@ CHECKS = {
         assumptions=["C locale", "NULL passed to %s is rendered as (null) by the reference", "h/hh/L modifiers and wide characters are outside the property's list and are not generated",
                      "a record is only decoded when the encoder reported it complete (return < limit), as the blackbox does"],
     ),
+    "C13": dict(
+        title="log line formatting bounded and per spec",
+        level="exploration",
+        design_ref="DESIGN.md section 4, C13",
+        technique="differential property testing: grammar-generated target formats/messages vs. a naive re-implementation of the directive language and vsnprintf; ASan on exact-size line buffers",
+        level_text="one forked process per case configures a custom target from generated settings (every accepted and rejected line length around the edges, ellipsis, extended, format strings from a grammar "
+                   "incl. unknown directives, widths up to 5000, formats ending inside a directive, formats of several thousand characters) and logs 1-3 messages through the printf path; the logger compares the "
+                   "message with vsnprintf's text and the line, formatted into a heap buffer of exactly max_line_length bytes, with a naive re-implementation",
+        level_note="trusted: the re-implementation of the documented directives in the harness, glibc vsnprintf, ASan; TZ=UTC",
+        stages=[rnd("fmt", "c13", 60000, 2000000, essential=["near_limit", "beyond_limit", "empty_rendering", "width_exceeds_room", "ellipsis", "tiny_limit", "big_limit", "format_ends_in_directive",
+                                                                "unknown_directive", "long_format", "empty_message", "trailing_newline", "extended_marker", "rejected_limit", "right_align", "static_directive", "two_targets"])],
+        assumptions=["format strings are ASCII", "a line that fills the buffer exactly may or may not carry the ellipsis (the implementation cannot tell it from a cut one)",
+                     "the tag stringifier returns a non-NULL string"],
+    ),
 }
